@@ -1384,7 +1384,22 @@ def einsum(spec, *ops, **kw):
             res.blocks[rkey] = K.add(res.blocks[rkey], e)
         else:
             res.blocks[rkey] = e
+    if getattr(W, "eager", False):
+        res = simplify_array(res)
     return res
+
+
+def simplify_array(arr):
+    """replace every block expression by its normal form (semantically equal by soundness of the kernel);
+    used to keep intermediate expressions small when inverse relations cancel early"""
+    blocks = {}
+    for k, e in arr.blocks.items():
+        if e is None:
+            blocks[k] = None
+            continue
+        p = K.normalize(e, W.ctx)
+        blocks[k] = K.poly_to_expr(p) if p else K.ZERO
+    return SymArr(arr.axes, blocks)
 
 
 def dot(a, b):
@@ -1487,6 +1502,10 @@ def setxor1d(a, b):
         if len(parts) == 2:
             nm, ps = parts[1 - pos]
             return index_map(nm, ps)
+    if isinstance(a, IndexArr) and a.kind == "range" and isinstance(b, IndexArr) and b.kind == "parts":
+        r = IndexArr("parts", parts=[k for k in range(b.of) if k not in b.parts], size=None)
+        r.of = b.of
+        return r
     raise ShimUnsupported("setxor1d pattern")
 
 
